@@ -184,8 +184,10 @@ EXPR_WRAPS = {
 }
 for _fn, _fe, _fk, _fc in EXPR_FAULTS:
     for _wn, _wl in EXPR_WRAPS[_fk]:
-        CATALOGUE.append((f'embed:{_fn}:{_wn}', [x.replace('{E}', _fe) for x in _wl], _fc, 'inj',
-                          'mpb' if len(_wl) > 1 else 'mpbi'))
+        # (zarr, zdyn and zrec are declared in the main program and are not SHARED: inside a procedure the same spelling is a
+        # fresh implicit array / a plain name, so those faults exist at module level only)
+        _ctx = ('mb' if len(_wl) > 1 else 'mbi') if _fn in ('rank', 'rank-dynamic', 'no-field') else ('mpb' if len(_wl) > 1 else 'mpbi')
+        CATALOGUE.append((f'embed:{_fn}:{_wn}', [x.replace('{E}', _fe) for x in _wl], _fc, 'inj', _ctx))
 
 
 def sites(text):
